@@ -540,17 +540,34 @@ def isolation(ctx, match, mpaths):
            'delMatch must remove the rule from the table routeMessage '
            'iterates')
     okr = False
+    skipped = []
     for p in Interp(prog, exc_edges=False).run(rfi):
         for ev in p.trace:
             if ev[0] == 'loop' and contains(ev[3], lambda x: x == table):
                 for bp in ev[4]:
+                    offered = False
                     for c in bp.calls():
                         if (c[1] or '').endswith('.match') or (
                                 kind(c[2]) == 'attr' and
                                 c[2][2] == 'match'):
-                            okr = c[3] == (('param', rfi.params()[1]),)
-    ctx.ob('C12.D5', rfi.qualname, 'every-rule-sees-the-message', okr,
-           'routeMessage must offer the message to every registered rule')
+                            offered = c[3] == (('param', rfi.params()[1]),)
+                    okr = okr or offered
+                    # every turn of the loop offers: no rule is skipped, and
+                    # the loop is not left early, whatever the earlier rules
+                    # (or this rule's callback) did with the message
+                    if not offered or bp.outcome in ('break', 'return',
+                                                     'raise'):
+                        skipped.append('%s under [%s]' % (
+                            'leaves the loop (%s)' % bp.outcome
+                            if offered else 'rule not offered the message',
+                            '; '.join('%s is %s' % (term_str(c)[:50], pol)
+                                      for c, pol in bp.cond[-2:])))
+    ctx.ob('C12.D5', rfi.qualname, 'every-rule-sees-the-message',
+           okr and not skipped,
+           'routeMessage must offer the message to every registered rule'
+           '%s' % (': ' + skipped[0] + ' - a signal is delivered once per '
+                   'matching RULE, also when two rules share a callback'
+                   if skipped else ''))
     afi = prog.func(MR + '.addMatch')
     oka = False
     for p in Interp(prog, exc_edges=False).run(afi):
